@@ -15,9 +15,9 @@ package main
 
 import (
 	"fmt"
-	"strings"
 	"go/token"
 	"go/types"
+	"strings"
 
 	"golang.org/x/tools/go/ssa"
 )
@@ -113,84 +113,87 @@ func (lb *LB) loopTerminates(h *ssa.BasicBlock) loopVerdict {
 		}
 	}
 	why := "no loop-header variable with a proven strict progress towards a loop-invariant bound"
-	for _, phi := range phisOf(h) {
-		var m lin
-		isLen := false
-		if _, _, isInt := intKind(phi.Type()); isInt {
-			m = linVar(lvar{0, phi})
-		} else {
-			switch t := phi.Type().Underlying().(type) {
-			case *types.Slice:
-				m, isLen = linVar(lvar{1, phi}), true
-			case *types.Basic:
-				if t.Info()&types.IsString == 0 {
+	// a cheap pass first (one level of case splits), the full search only when that finds nothing
+	for _, searchDepth := range []int{3, 1} {
+		for _, phi := range phisOf(h) {
+			var m lin
+			isLen := false
+			if _, _, isInt := intKind(phi.Type()); isInt {
+				m = linVar(lvar{0, phi})
+			} else {
+				switch t := phi.Type().Underlying().(type) {
+				case *types.Slice:
+					m, isLen = linVar(lvar{1, phi}), true
+				case *types.Basic:
+					if t.Info()&types.IsString == 0 {
+						continue
+					}
+					m, isLen = linVar(lvar{1, phi}), true
+				default:
 					continue
 				}
-				m, isLen = linVar(lvar{1, phi}), true
-			default:
-				continue
 			}
-		}
-		next := func(i int) lin {
-			if isLen {
-				return lb.lenLin(phi.Edges[i])
-			}
-			return lb.linOf(phi.Edges[i])
-		}
-		proveOnBack := func(mk func(i int) []cons) bool {
-			for i, p := range h.Preds {
-				if !h.Dominates(p) {
-					continue
+			next := func(i int) lin {
+				if isLen {
+					return lb.lenLin(phi.Edges[i])
 				}
-				saved := lb.curBlock
-				lb.curBlock = p
-				ok := lb.proveWith(mk(i), append(lb.edgeFacts(p, h), lb.extra...), map[lvar]lin{}, 1)
-				lb.curBlock = saved
-				if !ok {
-					return false
-				}
+				return lb.linOf(phi.Edges[i])
 			}
-			return true
-		}
-		if lbDump && strings.Contains(fname(lb.f), lbDumpFn) {
-			for i, p := range h.Preds {
-				if h.Dominates(p) {
-					dbg("loop %s phi %s back edge %d facts:", fname(lb.f), phi.Comment, i)
-					for _, c := range lb.closure(append(lb.edgeFacts(p, h), lb.extra...), map[lvar]lin{}) {
-						dbg("    %s <= 0 (ne=%v)", linString(c.l), c.ne)
+			proveOnBack := func(mk func(i int) []cons) bool {
+				for i, p := range h.Preds {
+					if !h.Dominates(p) {
+						continue
+					}
+					saved := lb.curBlock
+					lb.curBlock = p
+					ok := lb.proveWith(mk(i), append(lb.edgeFacts(p, h), lb.extra...), map[lvar]lin{}, searchDepth)
+					lb.curBlock = saved
+					if !ok {
+						return false
+					}
+				}
+				return true
+			}
+			if lbDump && strings.Contains(fname(lb.f), lbDumpFn) {
+				for i, p := range h.Preds {
+					if h.Dominates(p) {
+						dbg("loop %s phi %s back edge %d facts:", fname(lb.f), phi.Comment, i)
+						for _, c := range lb.closure(append(lb.edgeFacts(p, h), lb.extra...), map[lvar]lin{}) {
+							dbg("    %s <= 0 (ne=%v)", linString(c.l), c.ne)
+						}
 					}
 				}
 			}
-		}
-		if lbDump && strings.Contains(fname(lb.f), lbDumpFn) {
-			for i, p := range h.Preds {
-				if h.Dominates(p) {
-					dbg("  m=%s next[%d]=%s", linString(m), i, linString(next(i)))
+			if lbDump && strings.Contains(fname(lb.f), lbDumpFn) {
+				for i, p := range h.Preds {
+					if h.Dominates(p) {
+						dbg("  m=%s next[%d]=%s", linString(m), i, linString(next(i)))
+					}
 				}
 			}
-		}
-		// decreasing
-		if proveOnBack(func(i int) []cons { return []cons{le(next(i), m.addScaled(linConst(1), -1))} }) {
-			if isLen {
-				return loopVerdict{true, "len(" + phi.Comment + ") strictly decreases on every back edge"}
-			}
-			for _, B := range cands {
-				B := B
-				if proveOnBack(func(i int) []cons { return []cons{ge(m, B)} }) {
-					return loopVerdict{true, phi.Comment + " strictly decreases and stays above a loop-invariant bound"}
+			// decreasing
+			if proveOnBack(func(i int) []cons { return []cons{le(next(i), m.addScaled(linConst(1), -1))} }) {
+				if isLen {
+					return loopVerdict{true, "len(" + phi.Comment + ") strictly decreases on every back edge"}
 				}
-			}
-			why = phi.Comment + " decreases but no loop-invariant lower bound was proven"
-		}
-		// increasing
-		if proveOnBack(func(i int) []cons { return []cons{ge(next(i), m.addScaled(linConst(1), 1))} }) {
-			for _, B := range cands {
-				B := B
-				if proveOnBack(func(i int) []cons { return []cons{le(m, B)} }) {
-					return loopVerdict{true, phi.Comment + " strictly increases and stays below a loop-invariant bound"}
+				for _, B := range cands {
+					B := B
+					if proveOnBack(func(i int) []cons { return []cons{ge(m, B)} }) {
+						return loopVerdict{true, phi.Comment + " strictly decreases and stays above a loop-invariant bound"}
+					}
 				}
+				why = phi.Comment + " decreases but no loop-invariant lower bound was proven"
 			}
-			why = phi.Comment + " increases but no loop-invariant upper bound was proven"
+			// increasing
+			if proveOnBack(func(i int) []cons { return []cons{ge(next(i), m.addScaled(linConst(1), 1))} }) {
+				for _, B := range cands {
+					B := B
+					if proveOnBack(func(i int) []cons { return []cons{le(m, B)} }) {
+						return loopVerdict{true, phi.Comment + " strictly increases and stays below a loop-invariant bound"}
+					}
+				}
+				why = phi.Comment + " increases but no loop-invariant upper bound was proven"
+			}
 		}
 	}
 	// memory measure: the loop variable lives in a struct field (its address escaped earlier, e.g. to
@@ -306,7 +309,7 @@ func c18Loops(c *Ctx, scope []*ssa.Function, exempt map[string]string) {
 	}
 	for _, f := range scope {
 		hs := loopHeaders(f)
-		lb := &LB{p: c.P, f: f, UsedContracts: map[string]bool{}}
+		lb := &LB{p: c.P, f: f, UsedContracts: map[string]bool{}, ovf: lbOvfMode}
 		cfacts, _ := callerFacts(c.P, f)
 		lb.extra = cfacts
 		for i, h := range hs {
@@ -523,7 +526,7 @@ func checkIntContracts(c *Ctx) {
 			c.Missing("B-CONTRACT", name, "function", "not found")
 			continue
 		}
-		lb := &LB{p: c.P, f: f, UsedContracts: map[string]bool{}}
+		lb := &LB{p: c.P, f: f, UsedContracts: map[string]bool{}, ovf: lbOvfMode}
 		n := 0
 		for _, b := range f.Blocks {
 			ret, ok := b.Instrs[len(b.Instrs)-1].(*ssa.Return)
